@@ -5,20 +5,45 @@ use serde_json::{Map, Value};
 /// A JSON object.
 pub type JsonObject = Map<String, Value>;
 
-/// Permisive deserialization for optional 256-bit integer types.
+/// Permissive deserialization for unsigned 256-bit integers.
+///
+/// This accepts the same spellings as [`ethnum::serde::permissive`] (JSON
+/// numbers, decimal strings and `0x`-prefixed hexadecimal strings) but rejects
+/// negative JSON numbers, which the latter casts to an unsigned integer with
+/// wrap-around (so `-1` would silently become `2^256 - 1`).
+pub mod num {
+    use ethnum::{serde::permissive, U256};
+    use serde::{
+        de::{self, Deserializer},
+        Deserialize as _,
+    };
+    use serde_json::Value;
+
+    pub fn deserialize<'de, D>(deserializer: D) -> Result<U256, D::Error>
+    where
+        D: Deserializer<'de>,
+    {
+        let value = Value::deserialize(deserializer)?;
+        if matches!(&value, Value::Number(n) if n.as_f64().is_some_and(|n| n < 0.)) {
+            return Err(de::Error::custom(format!(
+                "negative number {value} for unsigned integer"
+            )));
+        }
+        permissive::deserialize(value).map_err(de::Error::custom)
+    }
+}
+
+/// Permisive deserialization for optional unsigned 256-bit integers.
 pub mod numopt {
-    use ethnum::serde::permissive::Permissive;
+    use ethnum::U256;
     use serde::{Deserialize, Deserializer};
 
     #[derive(Deserialize)]
     #[serde(transparent)]
-    struct Helper<T>(#[serde(with = "ethnum::serde::permissive")] T)
-    where
-        T: Permissive;
+    struct Helper(#[serde(with = "super::num")] U256);
 
-    pub fn deserialize<'de, T, D>(deserializer: D) -> Result<Option<T>, D::Error>
+    pub fn deserialize<'de, D>(deserializer: D) -> Result<Option<U256>, D::Error>
     where
-        T: Permissive,
         D: Deserializer<'de>,
     {
         let option = Option::deserialize(deserializer)?;
